@@ -43,7 +43,7 @@ type Plan struct {
 var faults = []string{"", "", "blindsig-flip", "blindsig-zero", "blindsig-one", "blindsig-Nminus1", "blindsig-N", "blindsig-short", "blindsig-long",
 	"blinded-N", "blinded-Nplus1", "blinded-short", "blinded-long", "blinded-zero",
 	"sig-flip", "sig-zero", "sig-one", "sig-Nminus1", "sig-N", "sig-Nplus1", "sig-plusN", "sig-short", "sig-long", "msg-alter", "meta-alter",
-	"blindsig-plusN", "sig-forged-padding", "two-blinds", "entropy-error", "retry-after-bad-blindsig"}
+	"blindsig-plusN", "sig-forged-padding", "sig-forged-leading-octet", "two-blinds", "entropy-error", "retry-after-bad-blindsig"}
 
 func gen(r *core.PRNG, tier string) any {
 	p := &Plan{Seed: r.Uint64(), MsgLen: r.EdgeLen(100, 0, 1, 48), MetaLen: r.EdgeLen(40, 0, 1), Pos: r.Intn(1 << 16)}
@@ -618,6 +618,49 @@ func exec(planJSON []byte, run *core.Run) {
 			run.Violate(comp+".Verify", "disagrees-with-crypto/rsa", "encoding with junk octet %#x in the padding and a %d-byte salt signed by the key holder: library says %v, crypto/rsa.VerifyPSS says %v (key %s)", junk, sl, got, want, p.Key)
 		}
 		return
+	case "sig-forged-leading-octet":
+		// 8k+1-bit moduli: the representative has one octet more than the encoded message. The key
+		// holder signs EM + 2^(8*emLen) for a regular encoding EM: RFC 8017 8.1.2 step 2c (I2OSP to
+		// emLen octets fails) and crypto/rsa refuse it; a verifier that keeps the trailing emLen
+		// octets without looking at the leading one accepts it.
+		if pb || N.BitLen()%8 != 1 {
+			return
+		}
+		d := sha512.Sum384(s1.prepared)
+		emLen := (N.BitLen() - 1 + 7) / 8
+		top := new(big.Int).Lsh(big.NewInt(1), uint(8*emLen))
+		var m *big.Int
+		for try := uint64(0); try < 64 && m == nil; try++ {
+			em := pssref.Encode(crypto.SHA384, d[:], core.NewPRNG(p.Seed+7+try).Bytes(saltLen), N.BitLen()-1, 0)
+			if em == nil {
+				return
+			}
+			if v := new(big.Int).Add(new(big.Int).SetBytes(em), top); v.Cmp(N) < 0 {
+				m = v
+			}
+		}
+		if m == nil {
+			return
+		}
+		forged := new(big.Int).Exp(m, key.D, N).FillBytes(make([]byte, k))
+		run.Fault("adversary:key-holder-signs-encoding-with-leading-octet")
+		got, fine := libVerify(s1.prepared, meta, forged)
+		if !fine {
+			return
+		}
+		opts := &rsa.PSSOptions{SaltLength: saltLen, Hash: crypto.SHA384}
+		if saltLen == 0 {
+			opts.SaltLength = rsa.PSSSaltLengthAuto
+		}
+		want := rsa.VerifyPSS(&key.PublicKey, crypto.SHA384, d[:], forged, opts) == nil
+		if ref := refVerify(s1.prepared, meta, forged); ref != want {
+			panic("HARNESS: pssref and crypto/rsa disagree on an encoding with a leading octet")
+		}
+		run.Event("verifier", "verify-leading-octet", got, want)
+		if got != want {
+			run.Violate(comp+".Verify", "disagrees-with-crypto/rsa", "EM + 2^(8*emLen) for a regular encoding EM signed by the key holder (%d-bit modulus): library says %v, crypto/rsa.VerifyPSS says %v (key %s)", N.BitLen(), got, want, p.Key)
+		}
+		return
 	case "sig-flip", "sig-zero", "sig-one", "sig-Nminus1", "sig-N", "sig-Nplus1", "sig-plusN", "sig-short", "sig-long", "msg-alter", "meta-alter":
 		vm, vmd, vs := append([]byte{}, s1.prepared...), append([]byte{}, meta...), append([]byte{}, sig...)
 		switch p.Fault {
@@ -665,7 +708,7 @@ func main() {
 	core.Main(&core.Property{
 		ID:    "C18",
 		Level: "exploration",
-		Rule: "seeded plans: four RSABSSA variants over fixture keys of 1024..4096 bits incl. 8k+1-bit moduli, and the partially blind variant over safe-prime keys with metadata; messages 0..100 bytes; one fault {blind signature bit flip / 0 / 1 / N-1 / N / short / long, blinded message N / N+1 / short / long / 0 at the signer, final signature bit flip / 0 / 1 / N-1 / N / N+1 / short / long, altered message or metadata, two blinds with equal salt and preparation, entropy error during Blind, retransmission after a bad blind signature, finalising twice}; directed: every variant x {1024, 1025, 2049-bit} x every fault; " +
+		Rule: "seeded plans: four RSABSSA variants over fixture keys of 1024..4096 bits incl. 8k+1-bit moduli, and the partially blind variant over safe-prime keys with metadata; messages 0..100 bytes; one fault {blind signature bit flip / 0 / 1 / N-1 / N / short / long, blinded message N / N+1 / short / long / 0 at the signer, final signature bit flip / 0 / 1 / N-1 / N / N+1 / short / long, altered message or metadata, a nonstandard encoding or EM + 2^(8 emLen) signed by the key holder, two blinds with equal salt and preparation, entropy error during Blind, retransmission after a bad blind signature, finalising twice}; directed: every variant x {1024, 1025, 2049-bit} x every fault; " +
 			"non-trivial = a fault fired; distinct = distinct abstract trace",
 		Assumptions: []string{
 			"the big-exponent PSS reference (refmodel/pssref, RFC 8017 9.1.2) is pinned to crypto/rsa.SignPSS at start-up on 1024/1025/2049-bit keys",
